@@ -42,8 +42,6 @@ def bounds(tier):
 def object_lists(tier):
     objs = [{'a': v} for v in VALUES]
     out = [[]] + [[o] for o in objs] + [[{}], [{}, {'a': 0}, {}], [{'a': {}}, {'b': []}, {'c': ''}]]
-    # items that are JSON values but not objects: one line each all the same (null excepted: load drops it by design)
-    out += [[7], [0, 5], ['x', '', [1, 2], 1.5, True, False, [], 'a b'], [[1], [[]], 0]]
     out.append([{'a': 'x' * 70000}, {'b': '\u00e9"\n' * 30000}])
     out.append([{'i': i, 's': '\u00e9' * (i % 7), 'n': [i, {'k': None}] if i % 3 else []} for i in range(300)])
     pairs = list(itertools.product(range(len(VALUES)), repeat=2))
@@ -84,6 +82,18 @@ def viol(comp, sym, detail):
     return {'signature': 'C19|%s|%s' % (comp or 'plain', sym), 'detail': detail}
 
 
+def plain_bytes(comp, data):
+    """What a file holds once decompressed (compressed bytes may legitimately differ between two dumps of the same
+    objects, e.g. by a time stamp in a gzip header; the property speaks about what is read back)."""
+    if comp == 'gzip':
+        import gzip
+        return gzip.decompress(data)
+    if comp == 'zstd':
+        from .c16 import ref_decode
+        return ref_decode('zstd', data)
+    return data
+
+
 def dump(objs, comp, target, open_obj=None):
     sink = RawSink()
     kw = {'open_obj': open_obj} if open_obj else {}
@@ -114,7 +124,7 @@ def run_case(case, acc):
     dev2 = Device()
     s2 = dump(objs, comp, NOWHERE, open_obj=lambda f, mode, encoding=None: dev2)
     acc.evals += 1
-    if s2.error is not None or dev2.content() != data:
+    if s2.error is not None or plain_bytes(comp, dev2.content()) != plain_bytes(comp, data):
         return [viol(comp, 'custom-open_obj-writes-other-bytes', {'objects': objs, 'error': repr(s2.error)})]
     if dev2.closed != 1:
         acc.count('dump_close_calls_not_1')       # informational: the property does not speak about closing
@@ -127,7 +137,7 @@ def run_case(case, acc):
     dump_obs = rx.from_(objs).pipe(rsjson.dump_to_file(NOWHERE, compression=comp, open_obj=opener))
     for _ in (1, 2):
         RawSink().subscribe_to(dump_obs)
-    if len(devs) != 2 or devs[0].content() != data or devs[1].content() != data:
+    if len(devs) != 2 or any(plain_bytes(comp, d_.content()) != plain_bytes(comp, data) for d_ in devs):
         return [viol(comp, 'second-subscription-of-dump_to_file-writes-other-bytes', {'objects': objs, 'files_opened': len(devs)})]
     load_obs = rsjson.load_from_file(NOWHERE, compression=comp, open_obj=opener)
     for n_sub in (1, 2):
@@ -152,7 +162,7 @@ def run_case(case, acc):
         acc.traces += 1
         if r.error is not None or r.completed != 1:
             out.append(viol(comp, 'load-not-completed', {'objects': objs, 'read_schedule': sched, 'error': repr(r.error)}))
-        elif r.items != objs:
+        elif repr(r.items) != repr(objs):
             out.append(viol(comp, 'loaded-objects-differ', {'objects': objs, 'read_schedule': sched, 'loaded': r.items}))
         elif via_open and d.closed != 1:
             acc.count('load_close_calls_not_1')   # informational only
